@@ -24,6 +24,8 @@ pub mod slice;
 mod static_wrapper;
 mod types;
 mod unsize;
+#[cfg(gc_arena_verif)]
+pub mod verif;
 
 #[cfg(feature = "enum-map")]
 mod enum_map;
